@@ -68,13 +68,19 @@ static int init_pubsub_fd(m_mod_t *mod) {
     if (_pipe(mod) == 0) {
         fd_src_t fd_src = {0};
         fd_src.fd = mod->pubsub_fd[0];
-        if (register_mod_src(mod, M_SRC_TYPE_PS, &fd_src, M_SRC_FD_AUTOCLOSE | M_SRC_PRIO_HIGH, NULL) == 0) {
+        /* Part of the start call, that was already charged: neither refused by the tokenbucket nor charged again */
+        const uint64_t tokens = mod->tb.tokens;
+        mod->tb.tokens = UINT64_MAX;
+        const int ret = register_mod_src(mod, M_SRC_TYPE_PS, &fd_src, M_SRC_FD_AUTOCLOSE | M_SRC_PRIO_HIGH, NULL);
+        mod->tb.tokens = tokens;
+        if (ret == 0) {
             return 0;
         }
         close(mod->pubsub_fd[0]);
         close(mod->pubsub_fd[1]);
         mod->pubsub_fd[0] = -1;
         mod->pubsub_fd[1] = -1;
+        return ret;
     }
     return -errno;
 }
